@@ -22,6 +22,10 @@ PROP = "C01"
 def settings(rng):
     """(eps, suc, tol) grid, including eps >> 100 tol and tolerances below the pipeline's accuracy"""
     r = rng.random()
+    if r < 0.05:
+        return 0.0, 1.0, 1e-6                 # no capitalisation, no rescaling
+    if r < 0.10:
+        return 1e-4, 0.5, 1e-6                # strong rescaling
     if r < 0.45:
         return 1e-4, 1 - 1e-4, 1e-6
     if r < 0.6:
@@ -37,6 +41,12 @@ def settings(rng):
 
 def gen_poly(rng, d):
     r = rng.random()
+    if r < 0.08:
+        # integer coefficient list (Python ints): +-T_d scaled down by suc only
+        c = np.zeros(d + 1); c[d] = 1.0
+        p = np.polynomial.chebyshev.cheb2poly(c)
+        p = np.concatenate([p, np.zeros(d + 1 - len(p))])
+        return [int(round(x)) for x in p] if d <= 20 else [float(x) for x in p], "integer-T_d"
     if r < 0.6:
         kind, norm = "feasible", float(rng.uniform(0.1, 0.9))
     elif r < 0.8:
